@@ -72,6 +72,24 @@ CLAIMED = {
         note="Assumed: _add_auxiliary_elements/_clean_up atomic; numpy/scipy functions store into their arguments only through out=; "
              "pandas methods without inplace=True do not mutate; values read from tables are unknown. Not decided: estimation drivers, "
              "_recycled_powerflow / runpp_3ph clean-up, result tables and net._* keys."),
+    "C02": dict(
+        text="Proof for a generic row of every branch element table: (a) the real result functions _get_branch_flows / _get_line_results / "
+             "_get_trafo_results / _get_trafo3w_results / _get_impedance_results write exactly the documented result formulas (terminal "
+             "powers, losses, currents from |S|/(sqrt(3) V), loading for current and power mode, angles) for AC and DC; (b) the real "
+             "_calc_line_parameter writes the documented per-unit pi parameters r, x, b, g with Z_N = V_N^2 / S_N, from/to bus, status and "
+             "RATE_A, and only into the line block; (c) the real branch_vectors returns the documented two-port (ideal transformer "
+             "t e^{j theta} at the from side, then the pi circuit) - Yff, Yft, Ytf, Ytt real and imaginary parts.",
+        note="Assumed: A-LOOKUP (block layout of ppc['branch']), numpy element-wise semantics, reals for floats, sin/cos/sqrt as "
+             "uninterpreted functions with sin^2+cos^2=1, sqrt(x)^2=x. Not decided: the transformer build chain (tap changer tables, "
+             "wye-delta, trafo3w star conversion), TDPF, the Newton solver itself (C01), DC line/impedance build."),
+    "C03": dict(
+        text="Proof: pl = p_from + p_to (AC) and 0 (DC) for the generic row of every branch element (real result functions); passivity "
+             "lemma on the admittances returned by the real branch_vectors: for all complex terminal voltages, r >= 0, g >= 0, any tap "
+             "ratio and shift the active loss equals a sum-of-squares certificate and is >= 0; DC power flow (_run_dc_pf, real text): "
+             "PT = -PF, QF = QT = 0, PF = (Bf Va + Pfinj) baseMVA, and the slack dispatch divides the bus mismatch by the number of "
+             "reference generators at that bus (population obligation on the bincount argument).",
+        note="Assumed: sparse products are functions of their operands; bincount counts occurrences; A-LOOKUP; reals for floats. Not "
+             "decided: global balance for AC (sum of nodal balances: Newton convergence, C01), branches with asymmetric series part."),
 }
 
 NOT_APPLICABLE = {
